@@ -413,9 +413,9 @@ def gen_char(rng, cls):
             if not 0xD800 <= c <= 0xDFFF:
                 return chr(c)
     if cls == "ls_ps":
-        return rng.choice("  ")
+        return rng.choice("\u2028\u2029")
     if cls == "specials":
-        return rng.choice("�￾￿퟿")
+        return rng.choice("\ufffd\ufffe\uffff\ud7ff\ue000")
     if cls == "astral":
         return chr(rng.choice((rng.randint(0x10000, 0x10FFFF), 0x1F603, 0x10000, 0x10FFFF, 0xFFFFF)))
     return ""
@@ -479,7 +479,7 @@ def gen_number(rng):
             return f
 
 
-KEYS = ["a", "b", "c", "k", "id", "name", "x y", "", "é", "k\"q", "0", "na\\me", " ", "😃", "A", "key", "arr", "obj"]
+KEYS = ["a", "b", "c", "k", "id", "name", "x y", "", "\u00e9", "k\"q", "0", "na\\me", "\u2028", " ", "A", "key", "arr", "obj"]
 
 
 def gen_value(rng, depth=0, maxdepth=4, classes=None):
